@@ -26,12 +26,13 @@ Inductive berr :=
 | BInvalidTypeAssertion (s : spec) (ref : N) (m : media)
 | BUnsupportedAttr (s : spec) (ref : N) (kind : N)
 | BBadSpecifier (s : spec) (ref : option N)
-| BNpm (s : spec) (ref : option N) (k : N).           (* k: 0 the resolver rejected the requirement, 1 the dependency graph failed *)
+| BNpm (s : spec) (ref : option N) (k : N)
+| BSourcePhase (s : spec) (ref : N).                 (* source-phase import of something that is not WebAssembly *)           (* k: 0 the resolver rejected the requirement, 1 the dependency graph failed *)
 
 Definition berr_spec (e : berr) : spec :=
   match e with
   | BMissing s _ | BLoad s _ _ | BParse s | BWasmParse s | BUnsupportedMedia s _ _
-  | BInvalidTypeAssertion s _ _ | BUnsupportedAttr s _ _ | BBadSpecifier s _ | BNpm s _ _ => s
+  | BInvalidTypeAssertion s _ _ | BUnsupportedAttr s _ _ | BBadSpecifier s _ | BNpm s _ _ | BSourcePhase s _ => s
   end.
 
 Inductive bslot :=
@@ -70,6 +71,9 @@ Record world := {
   w_class : list (spec * sclass);        (* absent = SUrl *)
   w_file : list spec;                    (* specifiers with scheme file *)
   w_max_redirects : nat;
+  w_wasm_ext : list spec;                (* specifiers whose extension says WebAssembly (MediaType::from_specifier) *)
+  w_wasm_nodts : list spec;              (* WebAssembly modules (by final specifier) with nothing to declare: no
+                                            imports or exports, the generated declaration text is empty *)
   w_npm : option (list (N * N))          (* None = no npm resolver; else what the resolver answers per requirement:
                                             0 (or absent) resolves, 1 is rejected, 2 resolves but makes the dependency
                                             graph resolution of a batch containing it fail *)
@@ -240,7 +244,12 @@ Definition load_target (st : bstate) (spec0 : spec) : spec :=
 Definition load (W : world) (o : bopts) (st : bstate) (spec0 : spec) (range : option N)
            (asset in_dyn root : bool) (attr : N) (count : nat) : bstate :=
   let s := load_target st spec0 in
-  if asset && negb (N.eqb attr 0) && negb (attr_allowed o attr) then
+  (* attr 9: no type attribute, every import of the target is a source-phase import (an asset load):
+     only WebAssembly - judged by the specifier's extension - may be imported that way *)
+  if asset && N.eqb attr 9 && negb (mem s (w_wasm_ext W)) then
+    set_slot st s (BErr (BSourcePhase s (match range with Some r => r | None => 0 end)))
+  else
+  if asset && negb (N.eqb attr 0) && negb (N.eqb attr 9) && negb (attr_allowed o attr) then
     set_slot st s (BErr (BUnsupportedAttr s (match range with Some r => r | None => 0 end) attr))
   else
     let proceed :=
@@ -427,7 +436,7 @@ Definition visit_module (W : world) (o : bopts) (st : bstate) (final : spec) (wm
   | MkWasm =>
       let r := visit_deps W o st (wm_deps wm) in
       (fst r, {| m_kind := MkWasm; m_spec := final; m_media := MWasm; m_deps := snd r; m_types_dep := None;
-                 m_fc_deps := None; m_dts := true |})
+                 m_fc_deps := None; m_dts := negb (mem final (w_wasm_nodts W)) |})
   | _ =>
       let media := match wm_media wm with MUnknown => MJavaScript | m => m end in
       let r := if follow_deps o wm then visit_deps W o st (wm_deps wm) else (st, []) in
